@@ -13,16 +13,95 @@
 package main
 
 import (
+	"bytes"
+	"crypto/sha256"
+	"encoding/hex"
 	"flag"
 	"fmt"
 	"go/ast"
 	"go/parser"
+	"go/printer"
 	"go/token"
 	"os"
 	"path/filepath"
 	"sort"
 	"strings"
 )
+
+// fingerprint of every function of a file (printed from the AST without comments): the code the model was written from
+func fingerprints(repo, rel string, only func(string) bool) []string {
+	fset := token.NewFileSet()
+	f, err := parser.ParseFile(fset, filepath.Join(repo, rel), nil, 0)
+	if err != nil {
+		bad("cannot parse %s: %v", rel, err)
+		return nil
+	}
+	var out []string
+	for _, d := range f.Decls {
+		fd, ok := d.(*ast.FuncDecl)
+		if !ok {
+			continue
+		}
+		name := fd.Name.Name
+		if r := recvName(fd); r != "" {
+			name = r + "." + name
+		}
+		if only != nil && !only(name) {
+			continue
+		}
+		var buf bytes.Buffer
+		if err := printer.Fprint(&buf, fset, fd); err != nil {
+			bad("cannot print %s %s", rel, name)
+			continue
+		}
+		h := sha256.Sum256(buf.Bytes())
+		out = append(out, fmt.Sprintf("(%s, %s)", coqStr(rel+":"+name), coqStr(hex.EncodeToString(h[:8]))))
+	}
+	sort.Strings(out)
+	return out
+}
+
+// every call site in non-test code of app/ and x/ that writes an account's key / sequence / record
+func accountWriters(repo string) []string {
+	want := map[string]bool{"SetPubKey": true, "SetSequence": true, "SetAccountNumber": true, "SetAccount": true, "RemoveAccount": true,
+		"NewAccountWithAddress": true, "NewAccount": true}
+	var out []string
+	for _, top := range []string{"app", "x", "types"} {
+		filepath.Walk(filepath.Join(repo, top), func(path string, fi os.FileInfo, err error) error {
+			if err != nil || fi.IsDir() || !strings.HasSuffix(path, ".go") || strings.HasSuffix(path, "_test.go") || strings.HasSuffix(path, ".pb.go") || strings.HasSuffix(path, ".pb.gw.go") {
+				return nil
+			}
+			fset := token.NewFileSet()
+			f, perr := parser.ParseFile(fset, path, nil, 0)
+			if perr != nil {
+				bad("cannot parse %s", path)
+				return nil
+			}
+			rel, _ := filepath.Rel(repo, path)
+			for _, d := range f.Decls {
+				fd, ok := d.(*ast.FuncDecl)
+				if !ok || fd.Body == nil {
+					continue
+				}
+				name := fd.Name.Name
+				if r := recvName(fd); r != "" {
+					name = r + "." + name
+				}
+				ast.Inspect(fd.Body, func(n ast.Node) bool {
+					if c, ok := n.(*ast.CallExpr); ok {
+						if sel, ok := c.Fun.(*ast.SelectorExpr); ok && want[sel.Sel.Name] {
+							out = append(out, coqStr(rel+":"+name+":"+sel.Sel.Name))
+						}
+					}
+					return true
+				})
+			}
+			return nil
+		})
+	}
+	sort.Strings(out)
+	return out
+}
 
 var errs []string
 
@@ -292,6 +371,12 @@ func main() {
 		rows = append(rows, fmt.Sprintf("(%s, [%s])", coqStr(n), strings.Join(returns[n], "; ")))
 	}
 	sb.WriteString("Definition c02_returns : list (string * list ret_shape) := [\n  " + strings.Join(rows, ";\n  ") + "]%string.\n")
+	fps := fingerprints(*repo, "app/ante/sigverify.go", nil)
+	fps = append(fps, fingerprints(*repo, "app/ante/ante.go", func(n string) bool { return n == "NewAnteHandler" })...)
+	fps = append(fps, fingerprints(*repo, "x/tokens/types/msg_eth_tx.go", nil)...)
+	fps = append(fps, fingerprints(*repo, "types/Msg.go", func(n string) bool { return n == "MsgType" })...)
+	sb.WriteString("Definition c02_fingerprints : list (string * string) := [\n  " + strings.Join(fps, ";\n  ") + "]%string.\n")
+	sb.WriteString("Definition c02_account_writers : list string := [\n  " + strings.Join(accountWriters(*repo), ";\n  ") + "]%string.\n")
 	var es []string
 	for _, e := range errs {
 		es = append(es, coqStr(e))
